@@ -616,7 +616,7 @@ func runAgent(o *fnutil.Out, cf, root string, nOut int, hists [][]string, rnd *r
 		return int(t)
 	}
 	waitFor := func(want int) bool {
-		deadline := time.Now().Add(5 * time.Second)
+		deadline := time.Now().Add(40 * time.Second) // the windows hold pipeline workers for up to 40 ms each
 		for time.Now().Before(deadline) {
 			if accounted() >= want {
 				return true
